@@ -53,6 +53,7 @@
 From Coq Require Import List Bool Arith NArith ZArith Lia.
 From TV Require Import Num.Num Gen.BlockGen Model.Block Model.BlockLeaf Model.BlockTree Proofs.BlockBlind.
 From TV Require Import Model.FiltersBase Gen.FiltersGen Model.ItemFilters Proofs.ItemFiltersBase Proofs.ItemFiltersAbs Model.BlockAlg Proofs.BlockAlgBlind.
+From TV Require Import Model.BlockAbs Proofs.BlockAbsLocal.
 From TV Require Import Model.Engine Model.EngineToy Proofs.EngineMemo Proofs.EngineBlind Proofs.EngineAbs Proofs.EngineAbsToy.
 From TV Require Import Model.PlacementBase Gen.PlacementGen Model.Placement Proofs.PlacementBlind.
 Import ListNotations.
@@ -325,6 +326,32 @@ Example C06_block_algorithm_example :
   forall (T : Type) (N : Num T), AbsChildLocal (abs_child_simple (T := T)).
 Proof. intros T N. apply abs_child_simple_local. Qed.
 
+(* ... and holds for the REAL absolute-item routine (Model/BlockAbs.v abs_child_block: one iteration of block.rs
+   perform_absolute_layout_on_absolute_children built from the translated kernel Gen/AbsPosGen.v; the engine instance the whole-tree
+   correspondence `vh blocktree cases` ties to the implementation bit for bit): its one query and its one stored layout address the
+   item's own node.  So the block instance below needs no premise for the real routine. *)
+Theorem C06_block_real_absolute_routine_local :
+  forall (T : Type) (N : Num T), AbsChildLocal (abs_child_block (T := T)).
+Proof. intros T N. apply abs_child_block_local. Qed.
+
+Theorem C06_block_engine_real_instance :
+  forall (T : Type) (N : Num T) (pre : BStyle T -> BIn T -> BIn T)
+         (sel : BStyle T -> bool) (leaf : BStyle T -> BIn T -> ChildOut T)
+         (mode : BIn T -> RunMode) (in_eqb : BIn T -> BIn T -> bool) (is_none : BStyle T -> bool)
+         (hidden_out : ChildOut T) (zero_lay : BLayout T),
+    let algo := fun s st i => if sel s then block_alg pre abs_child_block s st i
+                              else Engine.Ret (BIn T) (ChildOut T) (BLayout T) (leaf s i) in
+    forall f f' t t' i o t1 o' t1',
+      asim (BStyle T) (BIn T) (ChildOut T) (BLayout T) bs_visible_absolute out_eq lay_eq t t' ->
+      memo (BStyle T) (BIn T) (ChildOut T) (BLayout T) mode in_eqb is_none hidden_out zero_lay algo f t i = Some (o, t1) ->
+      memo (BStyle T) (BIn T) (ChildOut T) (BLayout T) mode in_eqb is_none hidden_out zero_lay algo f' t' i = Some (o', t1') ->
+      asim (BStyle T) (BIn T) (ChildOut T) (BLayout T) bs_visible_absolute out_eq lay_eq t1 t1' /\
+      (bs_visible_absolute (style_of (BStyle T) (BIn T) (ChildOut T) (BLayout T) t) = false -> out_eq o o').
+Proof.
+  intros T N pre sel leaf mode in_eqb is_none hidden_out zero_lay.
+  apply (C06_block_engine_instance_partial T N pre abs_child_block sel leaf mode in_eqb is_none hidden_out zero_lay). apply abs_child_block_local.
+Qed.
+
 Theorem C06_block_resumption_runs_kernel :
   forall (T : Type) (N : Num T) (ans : nat -> BIn T -> ChildOut T) (P : Params T) (items : list (@AItem T)) st acc k,
     exists fuel0, forall fuel,
@@ -593,6 +620,8 @@ Print Assumptions C06_block_items_absolute_flagged.
 Print Assumptions C06_block_source_predicates.
 Print Assumptions C06_block_algorithm_abs_blind.
 Print Assumptions C06_block_engine_instance_partial.
+Print Assumptions C06_block_real_absolute_routine_local.
+Print Assumptions C06_block_engine_real_instance.
 Print Assumptions C06_block_resumption_runs_kernel.
 Print Assumptions C06_block_content_width_ignores_absolute.
 Print Assumptions C06_block_resumption_query_inputs.
